@@ -16,6 +16,7 @@
 #include <stdlib.h>
 #include <string.h>
 #include <stdarg.h>
+#include <stddef.h>
 #include <unistd.h>
 #include <signal.h>
 #include <pthread.h>
@@ -55,6 +56,7 @@ static void ev(const char* fmt, ...) { va_list ap; char tmp[128]; int n; va_star
 
 static __thread int t_worker = -1;       /* -1 = caller */
 static __thread unsigned t_jobID;        /* job the worker is running */
+static __thread int t_stall;             /* this job is the first one loaded after the round buffer wrapped (its prefix sits at the start of the buffer) */
 static __thread int t_serialWake;        /* 0 none, 1 signal, 2 broadcast on the serial condition since the serial mutex was taken */
 static __thread unsigned t_rng;
 static int g_perturb; static unsigned g_pseed = 1; static int g_nworkers;
@@ -73,8 +75,8 @@ static void perturb(int where, pthread_mutex_t* m) {   /* where: 0 before lock, 
     else if (g_perturb == 3) { if (t_worker < 0 && where == 0) nap(1500); }
     else if (g_perturb == 4) { if (sr && m == &sr->mutex && where == 1) nap(2500); }
     /* 5: jobs reach the serial section in the order 2,1,0 / 5,4,3 / ... : several jobs wait on the serial condition when their predecessor leaves */
-    /* 6: the worker of job 1 (and of job 9) stalls for a quarter of a second at the end of its serial section: the caller laps the round buffer meanwhile */
-    else if (g_perturb == 6) { static __thread unsigned napped = ~0u; if (sr && m == &sr->mutex && where == 1 && (t_jobID == 1 || t_jobID == 9) && napped != t_jobID) { napped = t_jobID; nap(250000); } }
+    /* 6: the worker of the first job loaded after each wrap of the round buffer stalls for 0.4 s after its serial section, outside any lock: the later jobs finish, the caller laps the buffer meanwhile */
+    /* (preset 6 sleeps in zv_unlock, after the serial mutex has been released) */
     else if (g_perturb == 5) { if (t_worker >= 0 && sr && m == &sr->mutex && where == 0) nap(t_jobID % 3 == 0 ? 9000 : (t_jobID % 3 == 1 ? 4000 : 0)); }
 }
 /* caller: derive cksum / flush / retire from the change of its private counters since the last look */
@@ -101,7 +103,9 @@ static void caller_sync(void) {
 }
 static POOL_function g_realJob;
 #define SERIAL() __atomic_load_n(&g_serial, __ATOMIC_ACQUIRE)
-static void zv_jobfn(void* arg) { POOL_function f = __atomic_load_n(&g_realJob, __ATOMIC_ACQUIRE); t_jobID = ((ZSTDMT_jobDescription*)arg)->jobID; f(arg); }
+static void zv_jobfn(void* arg) { POOL_function f = __atomic_load_n(&g_realJob, __ATOMIC_ACQUIRE); ZSTDMT_jobDescription* job = (ZSTDMT_jobDescription*)arg;
+    ZSTDMT_CCtx* mt = (ZSTDMT_CCtx*)((char*)job->serial - offsetof(ZSTDMT_CCtx, serial));
+    t_jobID = job->jobID; t_stall = (job->jobID > 0 && job->prefix.size > 0 && job->prefix.start == (const void*)mt->roundBuff.buffer) ? 1 : 0; f(arg); }
 static int zv_signal(pthread_cond_t* c) { serialState_t* sr = SERIAL(); if (sr && c == &sr->cond && t_serialWake < 1) t_serialWake = 1; return pthread_cond_signal(c); }
 static int zv_broadcast(pthread_cond_t* c) { serialState_t* sr = SERIAL(); if (sr && c == &sr->cond) t_serialWake = 2; return pthread_cond_broadcast(c); }
 static int zv_tryAdd(POOL_ctx* ctx, POOL_function fn, void* arg) {
@@ -134,7 +138,9 @@ static void on_release(pthread_mutex_t* m) {
         else if (g_serial && m == &g_serial->mutex) { unsigned const v = g_serial->nextJobID; if (v == g_serialSeen + 1) ev("serial %u %d\n", g_serialSeen, t_serialWake); g_serialSeen = v; t_serialWake = 0; }
     }
 }
-static int zv_unlock(pthread_mutex_t* m) { perturb(1, m); on_release(m); return pthread_mutex_unlock(m); }
+static int zv_unlock(pthread_mutex_t* m) { int r; serialState_t* const sr = __atomic_load_n(&g_serial, __ATOMIC_ACQUIRE); perturb(1, m); on_release(m); r = pthread_mutex_unlock(m);
+    if (g_perturb == 6 && t_stall == 1 && sr && m == &sr->mutex) { t_stall = 0; nap(400000); }      /* serial turn over, compression of the job not started yet */
+    return r; }
 static int zv_wait(pthread_cond_t* c, pthread_mutex_t* m) { int r; on_release(m); r = pthread_cond_wait(c, m);
 #ifndef ZV_NOTRACE
     if (t_worker < 0 && g_mt && job_of_mutex(m)) caller_sync();
